@@ -6,6 +6,7 @@ import (
 	"go/constant"
 	"go/parser"
 	"go/token"
+	"go/types"
 	"path/filepath"
 	"strconv"
 	"strings"
@@ -359,6 +360,57 @@ func init() {
 		w.P("/-- every other extension value is shared with the spec (`default: c.Extensions[i] = e`) -/")
 		w.P("def cloneDefaultShares : Bool := %v", defaultShares)
 
+		// ---- u_connection.go newUClientConnection (run once per connection ATTEMPT: UTransport.doDial calls it again
+		// for the connection it re-creates after Version Negotiation): does the parameter list it suppresses / shuffles /
+		// hands to PopulateFromUQUIC, or the ClientHelloSpec it hands to uTLS, alias the QUICSpec value it was given —
+		// or is it a copy made inside this function, i.e. per attempt? (value-origin analysis, see flow.go)
+		rp, err := c.Load(".")
+		if err != nil {
+			return err
+		}
+		ctor := funcLitOfVar(rp, "newUClientConnection")
+		if ctor == nil {
+			return fmt.Errorf("var newUClientConnection = func(...) not found")
+		}
+		specParam := ""
+		if ps := ctor.Type.Params.List; len(ps) > 0 {
+			last := ps[len(ps)-1]
+			if len(last.Names) == 1 && strings.Contains(render(c.Fset, last.Type), "QUICSpec") {
+				specParam = last.Names[0].Name
+			}
+		}
+		if specParam == "" {
+			return fmt.Errorf("newUClientConnection: last parameter is not the *QUICSpec")
+		}
+		rfl := newFlow(rp)
+		ctorFn := mkFnBody("newUClientConnection", ctor.Type, nil, ctor.Body)
+		onSpecValue := false
+		nSites := 0
+		for _, name := range []string{"PopulateFromUQUIC", "SuppressQUICTransportParameters", "ShuffleQUICTransportParameters", "NewUCryptoSetupClient"} {
+			sites := rfl.reach(ctorFn, name, 3)
+			if len(sites) == 0 && (name == "PopulateFromUQUIC" || name == "NewUCryptoSetupClient") {
+				return fmt.Errorf("newUClientConnection: no call of %s in it or in the same-package helpers it calls", name)
+			}
+			for _, cs := range sites {
+				if len(cs.call.Args) == 0 {
+					continue
+				}
+				nSites++
+				arg := cs.call.Args[0]
+				if name == "NewUCryptoSetupClient" {
+					arg = cs.call.Args[len(cs.call.Args)-1]
+				}
+				if rfl.rootsAt(cs, arg)[specParam] {
+					onSpecValue = true
+				}
+			}
+		}
+		w.P("/-- u_connection.go `newUClientConnection` (run once per connection attempt): the extension value it suppresses, shuffles,")
+		w.P("populates and hands to uTLS may alias the `*QUICSpec` it was given (`%s.ClientHelloSpec…`) instead of a copy made", specParam)
+		w.P("inside this function (value-origin analysis) -/")
+		_ = nSites
+		w.P("def attemptOnSpecValue : Bool := %v", onSpecValue)
+
 		// ---- internal/wire: parameter ids + PopulateFromUQUIC switch table
 		wp, err := c.Load("internal/wire")
 		if err != nil {
@@ -368,14 +420,54 @@ func init() {
 		if fd == nil {
 			return fmt.Errorf("internal/wire: (*TransportParameters).PopulateFromUQUIC not found")
 		}
-		var sw *ast.SwitchStmt
-		ast.Inspect(fd.Body, func(n ast.Node) bool {
-			if s, ok := n.(*ast.SwitchStmt); ok && sw == nil {
-				sw = s
+		// The switch over the parameter id: the first switch statement (in PopulateFromUQUIC or a same-package helper
+		// it calls) all of whose case expressions are integer CONSTANTS (evaluated by go/types, so `uint64(xParameterID)`
+		// against `param.ID()` and `xParameterID` against `transportParameterID(param.ID())` read the same).
+		wfl := newFlow(wp)
+		constOf := func(e ast.Expr) (string, string, bool) {
+			tv, ok := wp.Info.Types[e]
+			if !ok || tv.Value == nil || tv.Value.Kind() != constant.Int {
+				return "", "", false
 			}
-			return sw == nil
-		})
+			name := ""
+			ast.Inspect(e, func(n ast.Node) bool {
+				if id, ok := n.(*ast.Ident); ok && name == "" {
+					if _, isConst := wp.Info.Uses[id].(*types.Const); isConst {
+						name = id.Name
+					}
+				}
+				return true
+			})
+			return constant.ToInt(tv.Value).ExactString(), name, true
+		}
+		var sw *ast.SwitchStmt
+		sawSwitch := false
+		for _, body := range wfl.bodiesFrom(fd.Body.List, 2) {
+			ast.Inspect(body, func(n ast.Node) bool {
+				s, ok := n.(*ast.SwitchStmt)
+				if !ok || sw != nil {
+					return sw == nil
+				}
+				sawSwitch = true
+				ncase, allConst := 0, true
+				for _, st := range s.Body.List {
+					for _, e := range st.(*ast.CaseClause).List {
+						ncase++
+						if _, _, ok := constOf(e); !ok {
+							allConst = false
+						}
+					}
+				}
+				if ncase > 0 && allConst {
+					sw = s
+				}
+				return sw == nil
+			})
+		}
 		if sw == nil {
+			if sawSwitch {
+				return fmt.Errorf("PopulateFromUQUIC: unexpected case expression (no switch whose cases are all integer constants)")
+			}
 			return fmt.Errorf("PopulateFromUQUIC: switch not found")
 		}
 		type pc struct {
@@ -387,22 +479,12 @@ func init() {
 		for _, st := range sw.Body.List {
 			cc := st.(*ast.CaseClause)
 			for _, e := range cc.List {
-				// uint64(xParameterID)
-				call, ok := e.(*ast.CallExpr)
-				if !ok || len(call.Args) != 1 {
-					return fmt.Errorf("PopulateFromUQUIC: unexpected case expression")
-				}
-				id, ok := call.Args[0].(*ast.Ident)
-				if !ok {
-					return fmt.Errorf("PopulateFromUQUIC: unexpected case expression")
-				}
-				v, _, _, ok := wp.Const(id.Name)
-				if !ok {
-					return fmt.Errorf("PopulateFromUQUIC: constant %s not found", id.Name)
-				}
+				idv, constIdent, _ := constOf(e)
+				// the kind of read-back: look at the case body and at the helpers it hands the parameter to
+				bodies := wfl.bodiesFrom(cc.Body, 2)
 				kind, typ := "flag", ""
 				okAsserts := map[*ast.TypeAssertExpr]bool{}
-				for _, b := range cc.Body {
+				for _, b := range bodies {
 					ast.Inspect(b, func(n ast.Node) bool {
 						if as, ok := n.(*ast.AssignStmt); ok && len(as.Lhs) == 2 && len(as.Rhs) == 1 {
 							if ta, ok := as.Rhs[0].(*ast.TypeAssertExpr); ok {
@@ -412,7 +494,7 @@ func init() {
 						return true
 					})
 				}
-				for _, b := range cc.Body {
+				for _, b := range bodies {
 					ast.Inspect(b, func(n ast.Node) bool {
 						if ta, ok := n.(*ast.TypeAssertExpr); ok && ta.Type != nil {
 							tn := ""
@@ -431,7 +513,7 @@ func init() {
 						return true
 					})
 				}
-				cases = append(cases, pc{id: constant.ToInt(v).ExactString(), kind: kind, typ: typ, constIdent: id.Name})
+				cases = append(cases, pc{id: idv, kind: kind, typ: typ, constIdent: constIdent})
 			}
 		}
 		w.P("/-- internal/wire/u_transport_parameters.go `PopulateFromUQUIC`: (parameter id, kind, asserted uTLS type);")
